@@ -97,7 +97,13 @@ def head_mutations(rng):
                 (f"redirect-{st.decode()}-garbage-location", base + b"Location: ws://[::1/\r\n\r\n"),
                 (f"redirect-{st.decode()}-bad-port", base + b"Location: ws://h:99999/\r\n\r\n"),
                 (f"redirect-{st.decode()}-nonnumeric-port", base + b"Location: ws://h:abc/\r\n\r\n"),
-                (f"redirect-{st.decode()}-loop", base + b"Location: ws://sim.test/\r\n\r\n")]
+                (f"redirect-{st.decode()}-loop", base + b"Location: ws://sim.test/\r\n\r\n"),
+                # host names the resolver's idna step cannot encode: an empty label, a label of more than 63 characters, a dot only
+                (f"redirect-{st.decode()}-empty-label", base + b"Location: ws://a..b/\r\n\r\n"),
+                (f"redirect-{st.decode()}-long-label", base + b"Location: ws://" + b"x" * 64 + b".test/\r\n\r\n"),
+                (f"redirect-{st.decode()}-dot-host", base + b"Location: ws://./\r\n\r\n"),
+                (f"redirect-{st.decode()}-nonascii-host", base + "Location: ws://b\u00fccher.test/\r\n\r\n".encode()),
+                (f"redirect-{st.decode()}-long-name", base + b"Location: ws://" + b".".join([b"a" * 60] * 5) + b"/\r\n\r\n")]
     return out
 
 
@@ -188,6 +194,7 @@ COOKIE_LINES = [
     "x=\"quoted; semi\"; Domain=example.com", "x=1; Domain=example.com; Path=/; Secure; HttpOnly; SameSite=Lax", ";;;", "", " ", "=", "a==b; Domain=example.com",
     "k\xe9y=v\xe4l; Domain=example.com", "k=v; Domain=ex\xe4mple.com", "k=" + "v" * 5000 + "; Domain=example.com", "k=v; Domain=" + "a." * 200 + "com",
     "a=1, b=2; Domain=example.com", "$Version=1; a=1; Domain=example.com", "a=1; domain=example.com", "a=1;Domain=example.com;", "a=\x00\x01; Domain=example.com",
+    "a,b=1", "a,b=1; Domain=example.com", "a;b,c=1; Domain=example.com", "na\"me=1; Domain=example.com", "a=1; Domain=example.com, b,c=2", "\x7f=1; Domain=example.com",
     "sid=five; Domain=com", "sid=six; Domain=127.0.0.1", "sid=seven; Domain=::1", "[x]=1; Domain=example.com", "a b=c d; Domain=example.com",
 ]
 
